@@ -130,6 +130,10 @@ func (s glueSuite) Gen(r *Rng, i int, tier string) any {
 		}
 		c.Archs = append(c.Archs, a)
 	}
+	if focus == "glue-avail" {
+		// the architecture FIELD of the records varies independently of the index that lists them
+		archFields(r, c.Archs)
+	}
 	// the world as written: a few attempts to find one that resolves on every architecture (most cases should
 	// reach the interesting part); the last attempt is kept whatever it does
 	for try := 0; try < 8; try++ {
@@ -545,6 +549,7 @@ func glueTags(c glueCase) []string {
 	if c.Cache != "" {
 		tagsBase = append(tagsBase, "cache:"+c.Cache)
 	}
+	tagsBase = append(tagsBase, archFieldTags(c.Archs)...)
 	if c.Big > 0 {
 		tagsBase = append(tagsBase, "cold-race:padded-index")
 	}
